@@ -165,4 +165,31 @@ def nodeClause (ctx : Ctx) (σ : Assign) (path : Path) (e : Expr) : Prop :=
    | _ => True)
 
 
+/-- Span soundness of one node: if it provides utility and its indicator is 1, its reported
+start is no later than its reported end, and every placement it reports lies in between. -/
+def Span (ctx : Ctx) (σ : Assign) (path : Path) (e : Expr) : Prop :=
+  (compileNode ctx path e).pr.util = true → indVal σ (compileNode ctx path e).pr = 1 →
+    resolveTV σ (compileNode ctx path e).pr.start ≤ resolveTV σ (compileNode ctx path e).pr.stop ∧
+    ∀ pl ∈ (populateNode ctx σ path e).placements,
+      resolveTV σ (compileNode ctx path e).pr.start ≤ pl.start ∧
+      pl.stop ≤ resolveTV σ (compileNode ctx path e).pr.stop
+
+/-- A satisfied `LessThan`: everything reported below the first child ends no later than
+anything reported below the second child starts. -/
+def LtOrder (ctx : Ctx) (σ : Assign) (path : Path) (name : String) (a b : Expr) : Prop :=
+  (compileNode ctx path (.lt name a b)).pr.util = true →
+  indVal σ (compileNode ctx path (.lt name a b)).pr = 1 →
+  ∀ qa ∈ (populateNode ctx σ (0 :: path) a).placements,
+  ∀ qb ∈ (populateNode ctx σ (1 :: path) b).placements, qa.stop ≤ qb.start
+
+/-- Per-node clause of span soundness: the node's own span, and for a `LessThan` the order
+of what its two children report. -/
+def spanClause (ctx : Ctx) (σ : Assign) (path : Path) (e : Expr) : Prop :=
+  Span ctx σ path e ∧
+  (match e with
+   | .lt name a b => LtOrder ctx σ path name a b
+   | _ => True)
+
+
+
 end ErdosVerif.Strl
